@@ -1,10 +1,8 @@
 package main
 
 import (
-	"bytes"
 	"fmt"
 	"math/rand"
-	"runtime"
 	"sort"
 	"strconv"
 	"strings"
@@ -13,43 +11,14 @@ import (
 	utilruntime "k8s.io/apimachinery/pkg/util/runtime"
 )
 
-// Panics that client-go swallows. `retry.RetryOnConflict` runs its function under `runtime.HandleCrash`, which re-panics only
-// when `ReallyCrash` is set (the production default, where such a panic kills the controller). The engines run with
-// ReallyCrash=false so that one case cannot take the harness down, and record every panic that passes through HandleCrash,
-// attributed to the goroutine (= the case) it happened on.
-var (
-	swallowedOnce   sync.Once
-	swallowedPanics sync.Map // goroutine id -> panic message
-)
+// Panics inside client-go's retry helpers. `retry.RetryOnConflict` runs its function under `runtime.HandleCrash`, which
+// re-panics only when `ReallyCrash` is set — the production default, where such a panic kills the controller. The sync and
+// world engines run everything on the worker goroutine of the case, so they keep the production setting and recover the
+// re-raised panic themselves (with ReallyCrash=false the panic would be swallowed and the retry helper would report success).
+var reallyCrashOnce sync.Once
 
-func goID() uint64 {
-	var buf [64]byte
-	n := runtime.Stack(buf[:], false)
-	f := bytes.Fields(buf[:n])
-	if len(f) < 2 {
-		return 0
-	}
-	id, _ := strconv.ParseUint(string(f[1]), 10, 64)
-	return id
-}
-
-// watchSwallowedPanics installs the recorder (once) and clears the slate of the calling goroutine.
-func watchSwallowedPanics() {
-	swallowedOnce.Do(func() {
-		utilruntime.ReallyCrash = false
-		utilruntime.PanicHandlers = append(utilruntime.PanicHandlers, func(r interface{}) {
-			swallowedPanics.Store(goID(), fmt.Sprint(r))
-		})
-	})
-	swallowedPanics.Delete(goID())
-}
-
-// swallowedPanic reports a panic recorded on the calling goroutine since watchSwallowedPanics.
-func swallowedPanic() (string, bool) {
-	if v, ok := swallowedPanics.LoadAndDelete(goID()); ok {
-		return v.(string), true
-	}
-	return "", false
+func productionCrashSemantics() {
+	reallyCrashOnce.Do(func() { utilruntime.ReallyCrash = true })
 }
 
 func sanitize(s string) string {
